@@ -28,7 +28,8 @@ type Handler struct {
 	lockFile  *ControlFile
 	tempFile  *ControlFile
 
-	closed bool
+	created bool
+	closed  bool
 }
 
 func NewHandlerWithoutLock(ctx context.Context, path string, defaultWaitTimeout time.Duration, retryDelay time.Duration) (*Handler, error) {
@@ -121,6 +122,7 @@ func NewHandlerForCreate(path string) (*Handler, error) {
 		return h, closeIsolatedHandler(h, err)
 	}
 	h.fp = fp
+	h.created = true
 	vhook.Event("h.acquired", "C "+h.path)
 	vhook.Yield("h.opened", 0)
 	return h, nil
@@ -197,7 +199,7 @@ func (h *Handler) close() error {
 	}
 
 	vhook.Yield("h.release.created", 0)
-	if h.openType == ForCreate && Exists(h.path) {
+	if h.openType == ForCreate && h.created && Exists(h.path) {
 		if err := os.Remove(h.path); err != nil {
 			return err
 		}
@@ -290,7 +292,7 @@ func (h *Handler) closeWithErrors() error {
 	}
 
 	vhook.Yield("h.release.created", 0)
-	if h.openType == ForCreate && Exists(h.path) {
+	if h.openType == ForCreate && h.created && Exists(h.path) {
 		if err := os.Remove(h.path); err != nil {
 			errs = append(errs, err)
 		}
